@@ -352,17 +352,27 @@ def trlog2(T, check=True, twist=False):
             else:
                 return np.zeros((3, 3))
         else:
-            if twist:
-                return base.vexa(scipy.linalg.logm(T))
+            # closed form: rotation angle from the rotation block, translational part
+            # from the inverse of V(theta) = [[sin, -(1-cos)], [1-cos, sin]] / theta
+            theta = math.atan2(T[1, 0], T[0, 0])
+            if theta == 0:
+                a = 1.0
             else:
-                return scipy.linalg.logm(T)
+                a = (theta / 2) / math.tan(theta / 2)
+            Vinv = np.array([[a, theta / 2], [-theta / 2, a]])
+            tw = np.r_[Vinv @ T[:2, 2], theta]
+            if twist:
+                return tw
+            else:
+                return base.skewa(tw)
 
     elif isrot2(T, check=check):
         # SO(2) rotation matrix
+        theta = math.atan2(T[1, 0], T[0, 0])
         if twist:
-            return base.vex(scipy.linalg.logm(T))
+            return np.array([theta])
         else:
-            return scipy.linalg.logm(T)
+            return base.skew(theta)
     else:
         raise ValueError("Expect SO(2) or SE(2) matrix")
 # ---------------------------------------------------------------------------------------#
